@@ -205,19 +205,39 @@ class EStream(Engine):
                        'find not found kept pos', 'readto found', 'readto not found', 'bytealign past the end',
                        'property assignment on positioned stream', 'new object from positioned stream',
                        'eq/hash against other position', 'cache_clear between reads', 'file-backed stream',
-                       'slice-built stream', 'bytealigned option on')
+                       'slice-built stream', 'bytealigned option on', 'big file-backed stream')
 
     QUICK = (42000, 30)
     THOROUGH = (560000, 60)
 
     # -------------------------------------------------------------------------------------------------
     def plan(self, tier, base_seed):
-        return self.seeded_plan(tier, base_seed, quick=self.QUICK, thorough=self.THOROUGH)
+        descs = self.seeded_plan(tier, base_seed, quick=self.QUICK, thorough=self.THOROUGH)
+        # a few streams over a file of a little more than 2 MiB with a marker across every power-of-two byte boundary from 4 KiB up
+        # (whatever piece size a reader of mapped files works in, some marker straddles two pieces)
+        nbig = 16 if tier == 'quick' else 320
+        step = max(1, len(descs) // nbig)
+        for j in range(nbig):
+            d = dict(descs[min(j * step, len(descs) - 1)])
+            d['seed'] = d['seed'] + 500_000_000
+            d['big'] = True
+            d['n'] = 28
+            descs.insert(min(j * step, len(descs)), d)
+        return descs
 
     FAMILIES = ('read', 'readlist', 'readto', 'seek', 'bytealign', 'find', 'mut', 'propset', 'new', 'eq', 'query',
                 'trunc', 'option', 'cache')
 
+    BIG_SIZE = (1 << 21) + 4096 + 3
+
+    @staticmethod
+    def big_markers():
+        return [((1 << k) - 2, bytes([0xA5, k, 0x5A, 0xC3])) for k in range(12, 22)]
+
     def config(self, g, desc):
+        if desc.get('big'):
+            return {'cls': g.pick(CLASSES), 'route': 'file', 'big': True, 'bits': '', 'p0': 0, 'p0via': 'prop', 'pre': '', 'post': '',
+                    'fam': {'find': 1}, 'ba': g.chance(0.3), 'avoid': False, 'n': desc.get('n', 16)}
         cls = g.pick(CLASSES)
         route = g.wpick([('mem', 5), ('file', 2), ('slice', 2), ('bytes', 1), ('auto', 1)])
         kind = g.wpick([('random', 5), ('golomb', 3), ('sparse', 2)])
@@ -264,6 +284,12 @@ class EStream(Engine):
         bits = cfg.get('bits', '')
         if not isinstance(bits, str) or set(bits) - {'0', '1'}:
             bits = ''
+        if cfg.get('big'):
+            data = bytearray(self.BIG_SIZE)
+            for at, m in self.big_markers():
+                data[at:at + 4] = m
+            bits = ''.join(format(b, '08b') for b in bytes(data))
+            self.probe('big file-backed stream')
         self.B = bits
         L = len(bits)
         p0 = cfg.get('p0', 0)
@@ -1561,7 +1587,32 @@ class EStream(Engine):
             return 0
         return L
 
+    def _gen_big(self, g):
+        """Searches and reads round the planted markers of the big file."""
+        if not hasattr(self, 'sweep'):
+            self.sweep = []
+            for at, m in self.big_markers():
+                mb = ''.join(format(b, '08b') for b in m)
+                self.sweep.append({'k': 'seek', 'attr': 'pos', 'v': g.pick([0, 0, 8 * (at - 4096) if at > 8192 else 0])})
+                self.sweep.append(g.pick([{'k': 'find', 'r': False, 'bs': {'b': g.pick([mb, mb[8:], mb[:24]]), 'as': 'str'}, 'ba': g.pick([True, True, False])},
+                                          {'k': 'readto', 'bs': {'b': g.pick([mb, mb[8:], mb[:24]]), 'as': 'str'}, 'ba': g.pick([True, True, False])}]))
+            self.sweep.reverse()
+        if self.sweep:
+            return self.sweep.pop()
+        at, m = g.pick(self.big_markers())
+        mb = ''.join(format(b, '08b') for b in m)
+        k = g.pick(['seek', 'find', 'rfind', 'readto', 'read'])
+        if k == 'seek':
+            return {'k': 'seek', 'attr': 'pos', 'v': max(8 * at - g.pick([0, 8, 64, 8 * 4096, 8 * (1 << 20)]), 0)}
+        if k in ('find', 'rfind'):
+            return {'k': 'find', 'r': k == 'rfind', 'bs': {'b': g.pick([mb, mb[8:], mb[3:29]]), 'as': 'str'}, 'ba': g.pick([True, False])}
+        if k == 'readto':
+            return {'k': 'readto', 'bs': {'b': g.pick([mb, mb[8:]]), 'as': 'str'}, 'ba': g.pick([True, False])}
+        return {'k': 'read', 'peek': g.chance(0.3), 'tok': {'t': 'int', 'n': g.pick([8, 32, 13])}}
+
     def _gen1(self, g):
+        if self.cfg.get('big'):
+            return self._gen_big(g)
         fam = self.cfg.get('fam') or {'read': 1}
         f = g.wpick(sorted(fam.items()))
         return getattr(self, '_g_' + f)(g)
